@@ -442,6 +442,10 @@ class Host(object):
         w = self.w
         src, dst, want = op["src"], op["dst"], op["to"]
         args = [src, "--to_" + want, dst]
+        also = [a for a in op.get("also", []) if a["to"] != want and a["dst"] not in (src, dst)]
+        for a in also:
+            args += ["--to_" + a["to"], a["dst"]]
+        also_before = {a["dst"]: w.get(a["dst"]) for a in also}
         if op.get("append"):
             args.append("--append")
         if op.get("files") is not None:
@@ -511,7 +515,23 @@ class Host(object):
             if w.get(dst) != before:
                 res.violate("TARGET-MODIFIED:srcfault", "%s changed although reading %s failed" % (dst, src), k)
             return r
-        self.judge_save(r, dst, want, op.get("append"), conv, before, k, read_fault=(fault_path == dst))
+        # file_util handles --to_cas, then --to_dsk, then --to_bin; a failure stops the rest
+        order = {"cas": 0, "dsk": 1, "bin": 2}
+        targets = sorted([(want, dst, before)] + [(a["to"], a["dst"], also_before[a["dst"]]) for a in also], key=lambda t: order[t[0]])
+        failed = False
+        for tk, tp, tb in targets:
+            if tk == "bin" and len(src_files) != 1:
+                continue
+            if failed:
+                if w.get(tp) != tb:
+                    res.violate("WROTE-AFTER-FAILURE", "%s was written although an earlier target of the same invocation failed" % tp, k)
+                continue
+            verdict, _ = self.expect_save(tp, tk, op.get("append"), conv)
+            self.judge_save(r, tp, tk, op.get("append"), conv, tb, k, read_fault=(fault_path == tp))
+            if verdict == "must_refuse" or (verdict == "either" and w.get(tp) == tb):
+                failed = True
+        if also:
+            res.stats["probe:several_targets_in_one_invocation"] += 1
         return r
 
     def op_vf(self, op, k):
